@@ -24,7 +24,7 @@ ASSUMPTIONS = ["K-layer tolerance |a-b| <= 1e-10 + 1e-8 max(|a|,|b|) between mod
 def scenario(ctx, i):
     r = ctx.rng
     C, D, N = gen.dims(ctx, nmax_q=12, nmax_t=40)
-    kind = ["bulk", "tail", "mixed", "floor", "bulk", "highdim", "separated"][int(r.integers(0, 7))]
+    kind = ["bulk", "tail", "mixed", "floor", "bulk", "highdim", "separated", "tinyweight"][int(r.integers(0, 8))]
     if kind == "highdim":
         # many features with a common scale far from 1: the log-normaliser sum_d log(2 pi var_d) is of order +-1e3,
         # its exponential is far outside the double range (the density is fine: only its log is ever needed)
@@ -35,6 +35,14 @@ def scenario(ctx, i):
     if kind == "separated" and C >= 2:
         # component means 1e4 .. 1e8 standard deviations apart (each sample is in the bulk of one component)
         m = m + np.sqrt(v) * (10.0 ** r.uniform(4, 8)) * r.choice([-1.0, 1.0], size=(C, 1)) * np.arange(C)[:, None]
+    tiny = None
+    if kind == "tinyweight" and C >= 2:
+        # a positive weight far below machine epsilon (ML training gives a component without data the weight eps / n_samples):
+        # its log is finite and counts; the other components are moved away so that it dominates near its own mean
+        tiny = int(r.integers(0, C))
+        w = np.array(w, dtype=float)
+        w[tiny] = 10.0 ** (-float(r.uniform(17, 300)))
+        m = m + np.sqrt(v) * 60.0 * (np.arange(C)[:, None] - tiny)
     thr = None
     if kind == "floor":
         thr = float(np.exp(r.uniform(np.log(0.05), np.log(2)))) * (sc**2)
@@ -45,6 +53,8 @@ def scenario(ctx, i):
         keep = r.random(N) < 0.5
         keep[0], keep[-1] = True, False
         x = np.where(keep[:, None], gen.sample_data(r, w, m, v, N), x)
+    if tiny is not None:
+        x[: max(1, N // 2)] = m[tiny] + np.sqrt(v[tiny]) * r.normal(size=(max(1, N // 2), D))
     if kind == "bulk":
         x = gen.maybe_int(r, x, p=0.25)  # other legal dtypes of the sample array (the model sees the same values)
     order = ["thr_first", "thr_last", "restage", "ubm_copy"][int(r.integers(0, 4))] if kind == "floor" else ["thr_first", "restage", "ubm_copy"][int(r.integers(0, 3))]
@@ -138,6 +148,35 @@ def oracle(sc):
     return None
 
 
+def oracle_trained(sc, rng):
+    """machines as training leaves them (ML / MAP steps with every update switch on, NumPy and Dask input): whatever their
+    visible weights, means and variances are, the reported log-likelihood is the log mixture density of exactly those"""
+    import dask.array as da
+    from bob.learn.em import GMMMachine
+
+    x = np.asarray(sc["x"], dtype=float)
+    if len(x) < 4:
+        return None
+    for trainer in ("ml", "map"):
+        for use_dask in (False, True):
+            base = gen.mk_gmm(sc["w"], sc["m"], sc["v"])
+            kw = dict(max_fitting_steps=int(rng.integers(1, 3)), convergence_threshold=None, update_means=True, update_variances=(trainer == "ml"), update_weights=True)
+            g = gen.mk_gmm(sc["w"], sc["m"], sc["v"], **kw) if trainer == "ml" else GMMMachine(sc["C"], trainer="map", ubm=base, map_relevance_factor=float(rng.uniform(0.5, 8)), **kw)
+            xin = da.from_array(x, chunks=(max(1, len(x) // 2), x.shape[1])) if use_dask else x
+            r = core.impl(lambda: g.fit(xin))
+            if isinstance(r, core.ImplError):
+                continue
+            w, m, v = (np.asarray(a, dtype=float) for a in (g.weights, g.means, g.variances))
+            if not (np.all(np.isfinite(w)) and np.all(np.isfinite(m)) and np.all(v > 0) and np.all(w > 0)):
+                continue  # C13's business
+            ref, _ = reference_ll(w, m, v, x)
+            ll = core.impl(lambda: np.asarray(g.log_likelihood(x)))
+            if isinstance(ll, core.ImplError) or not core.close(ll, ref, 1e-9, 1e-9):
+                return {"sig": "trained-machine-likelihood-not-log-mixture", "what": f"after {trainer.upper()} training on {'Dask' if use_dask else 'NumPy'} input: log_likelihood "
+                        f"{np.asarray(ll).tolist() if not isinstance(ll, core.ImplError) else ll!r} vs the log mixture density of its visible parameters {ref.tolist()} (weights {w.tolist()})"}
+    return None
+
+
 def quadrature(sc):
     """exp(log_likelihood) integrates to one (D<=2, midpoint rule on a box of +-9 sigma)."""
     w, m, v = np.asarray(sc["w"]), np.asarray(sc["m"]), np.asarray(sc["v"])
@@ -165,9 +204,15 @@ def search(ctx):
         ctx.count("search:" + sc["kind"])
         f = oracle(sc)
         ctx.case(["s", sc["C"], sc["D"], core.tolist(sc["x"])], nontrivial=True)
+        if not f and sc["kind"] == "bulk" and i % 2 == 0:
+            ctx.count("search:trained-machine")
+            f = oracle_trained(sc, np.random.default_rng(i))
+            if f:
+                f["oracle"] = "trained"
+                f["trained_seed"] = i
         if f:
-            f["input"] = {k: sc[k] for k in ("w", "m", "v", "thr", "x", "sizes", "order")}
-            f["oracle"] = "oracle"
+            f["input"] = {k: sc[k] for k in ("C", "w", "m", "v", "thr", "x", "sizes", "order")}
+            f.setdefault("oracle", "oracle")
             fails.append(f)
             if len(fails) >= 3:
                 break
@@ -191,4 +236,6 @@ def search(ctx):
 
 def replay(d):
     sc = {k: (np.asarray(v) if isinstance(v, list) and k != "sizes" else v) for k, v in d["input"].items()}
+    if d.get("oracle") == "trained":
+        return oracle_trained(sc, np.random.default_rng(int(d.get("trained_seed", 0))))
     return quadrature(sc) if d.get("oracle") == "quadrature" else oracle(sc)
